@@ -463,6 +463,67 @@ class Fn:
             self._rescan()
             n += 1
 
+    def enclosing_block(self, pos):
+        """Innermost {...} block around pos: (open, close)."""
+        depth = 0
+        k = pos - 1
+        while k >= 0:
+            ch = self.mask[k]
+            if ch == '}':
+                depth += 1
+            elif ch == '{':
+                if depth == 0:
+                    return k, match_close(self.mask, k)
+                depth -= 1
+            k -= 1
+        raise LostAnchor('no enclosing block')
+
+    def flag_continues(self):
+        """R-continue (third form, for loops only): a `continue;` nested in if/else blocks becomes
+        `skip__k = true;`; at every block level between it and the loop body the statements that
+        follow are wrapped in `if !skip__k { ... }`; `let mut skip__k = false;` opens the loop body."""
+        n = 0
+        while True:
+            target = None
+            for l in self.loops():
+                if l['kw'] != 'for':
+                    continue
+                for m in re.finditer(r'\bcontinue\s*;', self.mask[l['hdr_end']:l['body_close']]):
+                    a = l['hdr_end'] + m.start()
+                    inner = [x for x in self.loops() if x['hdr_end'] < a < x['body_close']]
+                    if max(inner, key=lambda x: x['hdr_end']) is l:
+                        target = (l, a, l['hdr_end'] + m.end())
+                        break
+                if target:
+                    break
+            if not target:
+                return n
+            l, a, e = target
+            flag = 'skip__%d' % n
+            edits = [(a, e, '%s = true;' % flag)]
+            pos = a
+            while True:
+                o, c = self.enclosing_block(pos)
+                st = self.block_stmts(o, c)
+                cur = [x for x in st if x[0] <= pos < x[1]]
+                if not cur:
+                    raise LostAnchor('%s: cannot place continue flag' % self.name)
+                after = [x for x in st if x[0] >= cur[0][1]]
+                if after:
+                    edits.append((after[0][0], after[0][0], 'if !%s { ' % flag))
+                    edits.append((after[-1][1], after[-1][1], ' }'))
+                if o == l['hdr_end']:
+                    break
+                pos = o
+            edits.append((l['hdr_end'] + 1, l['hdr_end'] + 1, ' let mut %s = false;' % flag))
+            edits.sort(key=lambda x: (x[0], x[1]), reverse=True)
+            t = self.text
+            for s_, e_, new in edits:
+                t = t[:s_] + new + t[e_:]
+            self.text = t
+            self._rescan()
+            n += 1
+
     def strip_attrs_and_docs(self):
         """R-attr: drop doc comments and the listed harmless attributes in front
         of the fn and inside it."""
@@ -535,9 +596,13 @@ class Fn:
 
     def top_level_stmts(self):
         """Spans of the body's top-level statements (and tail expression)."""
+        return self.block_stmts(self.body_open, self.body_close)
+
+    def block_stmts(self, open_pos, close_pos):
+        """Spans of the statements (and tail expression) directly inside the block open_pos..close_pos."""
         res = []
-        i = self.body_open + 1
-        end = self.body_close
+        i = open_pos + 1
+        end = close_pos
         msk = self.mask
         n = end
         cur = None
